@@ -3,6 +3,7 @@ package c13
 import (
 	"encoding/binary"
 	"fmt"
+	"github.com/google/pprof/internal/plugin"
 	"os"
 	"path/filepath"
 	"sort"
@@ -32,6 +33,7 @@ type elfCase struct {
 	Whole            bool     // instead: one mapping covering the whole file image (merged mapping)
 	AddrSel          []uint64 // selectors for addresses inside the mapping
 	OneOpen          bool     // translate all addresses through a single ObjFile
+	SLFirst          bool     // ask the ObjFile for the source line of each address before translating it
 }
 
 func pagedown(x uint64) uint64 { return x &^ (page - 1) }
@@ -143,6 +145,7 @@ func genELF(t *rapid.T) *elfCase {
 	}
 	c.AddrSel = rapid.SliceOfN(rapid.Uint64(), 1, 6).Draw(t, "addrs")
 	c.OneOpen = rapid.Bool().Draw(t, "oneopen")
+	c.SLFirst = rapid.Bool().Draw(t, "slfirst")
 	return c
 }
 
@@ -254,11 +257,13 @@ func checkELF(c *elfCase, o *vk.Obs) []string {
 		ObjAddr(uint64) (uint64, error)
 		Close() error
 	}
+	slDone := false
 	for _, a := range addrs {
 		if a < lo || a >= hi {
 			continue
 		}
 		if of == nil || !c.OneOpen {
+			slDone = false
 			f, err := bu.Open(path, start, limit, offset, "")
 			if err != nil {
 				if unamb {
@@ -283,6 +288,14 @@ func checkELF(c *elfCase, o *vk.Obs) []string {
 				}
 			}
 			unambAddr = n == 1 && tg.Memsz == tg.Filesz
+		}
+		if sl, ok := of.(interface {
+			SourceLine(uint64) ([]plugin.Frame, error)
+		}); ok && c.SLFirst && c.OneOpen && !slDone {
+			slDone = true // once per object file is what matters (and nm is run for every lookup)
+			// symbolization and translation share the once-only base computation of the object file; whatever
+			// the lookup answers (no nm here: an error), the translation below must still be right or an error
+			sl.SourceLine(a)
 		}
 		got, err := of.ObjAddr(a)
 		if !c.OneOpen {
